@@ -9,7 +9,7 @@ export GOFLAGS=-mod=mod GOPROXY=off GOSUMDB=off GOTOOLCHAIN=local
 [ -x bin/govc ] || ./setup.sh >/dev/null
 FILTER="${1:-}"
 # SHARD=i/n runs every n-th patch starting at the i-th (0-based), so that several shards can run side by side
-SHARD_I="${SHARD%%/*}"; SHARD_N="${SHARD##*/}"; [ -n "${SHARD:-}" ] || { SHARD_I=0; SHARD_N=1; }
+SHARD="${SHARD:-0/1}"; SHARD_I="${SHARD%%/*}"; SHARD_N="${SHARD##*/}"
 fail=0; n=0; k=0
 run_one() {
   local patch="$1" kind="$2"
